@@ -575,6 +575,17 @@ def suite_emitted_ids(ctx, d, pgpy, names):
             o = outcome(lambda: key.certify(key.userids[0], SignatureType.Casual_Cert))
             if o[0] == 'ok':
                 sigs.append(('certify', split_packets(bytes(o[1].__bytearray__()))[0][1]))
+            # signatures issued by a SUBKEY: made directly by a signing subkey, and the primary-key-binding signatures that
+            # signing subkeys embed in their binding signature
+            for skid, sk in key.subkeys.items():
+                if sk.key_algorithm.can_sign and int(sk.key_algorithm) != 18:
+                    o = outcome(lambda: sk.sign('subkey-issued %s' % name))
+                    if o[0] == 'ok':
+                        sigs.append(('subkey-sign', split_packets(bytes(o[1].__bytearray__()))[0][1]))
+                for bs in sk.__sig__:
+                    for emb in bs._signature.subpackets['EmbeddedSignature']:
+                        eb = bytes(emb.__bytearray__())[len(emb.header):]
+                        sigs.append(('embedded-xsig', eb))
             for what, sb in sigs:
                 case = {'op': 'sig-ids', 'key': name, 'what': what, 'sig': sb.hex()}
                 r = d.call('sigsub', hx(sb))
